@@ -3,6 +3,11 @@ package mapr
 // SetClause interprets the set clause of the mapreduce query.
 func (q *Query) SetClause(fields map[string]string) error {
 	for _, sc := range q.Set {
+		if sc.rType == String || sc.rType == Float {
+			// Literals are assigned as they are, even if a field has the same name.
+			fields[sc.lString] = sc.rString
+			continue
+		}
 		value, ok := fields[sc.rString]
 		if !ok {
 			value = sc.rString
